@@ -36,6 +36,31 @@ func c10Gen(g *G) {
 	// peer checks requests and acknowledgements byte for byte
 	g.Emit("c10.run o,o,o P1;ywq:3000:1;g0;s400;g1;s300;u;x;g2;w3;a0;a1;a2", "encoded-message-waits-for-write-lock")
 	g.Emit("c10.run o,o g0;w1;ywk:3000:1;u;s400;g1;s300;n66;w2;c(a1,u);a0", "encoded-message-waits-for-write-lock")
+	// callers that send other requests than ping: every request of the MTProto service schema an application can pass
+	// to MakeRequest (x_rpcsrv.go "request types": msgs_state_req and msg_resend_req with one and several ids,
+	// ping_delay_disconnect, req_pq, req_DH_params, set_client_DH_params, rpc_drop_answer, get_future_salts,
+	// destroy_session) — one after the other with acknowledgements in between, all at once, and mixed with pings; the
+	// peer checks each byte for byte and judges the seq_no parity by its own table of content-related constructors
+	reqTypes := []string{"sr1", "rr1", "pd", "pq", "dh", "sc", "da", "fs", "ds", "sr4", "rr3", "pi"}
+	{
+		var kinds, seqPlan []string
+		for j, t := range reqTypes {
+			kinds = append(kinds, []string{"o", "b", "vl", "e"}[j%4]+"@"+t)
+			seqPlan = append(seqPlan, fmt.Sprintf("g%d;w%d;%s;a%d;j", j, j+1, []string{"u", "x", "p", "n61"}[j%4], j))
+		}
+		all := make([]int, len(reqTypes))
+		for j := range all {
+			all[j] = j
+		}
+		g.Emit("c10.run "+strings.Join(kinds, ",")+" "+strings.Join(seqPlan, ";"), "request-types")
+		g.Emit(fmt.Sprintf("c10.run %s g%s;w%d;u;%s", strings.Join(kinds, ","), rsJoinInts("", all, "+"), len(all),
+			strings.Join(rsAnswerPlan(r, rsPerm(r, len(all)), []string{"u", "x"}), ";")), "request-types")
+		g.Emit("c10.run o@sr2,o,o@rr2,o,o@ds g0+1;w2;a1;u;a0;j;g2;w3;r2/2000;w4;a2;j;close;g3+4;w6;c(a4,u,a3)", "request-types")
+	}
+	// the server's msg_ids anywhere in the unsigned 64-bit range (bit 63 set, just below 2^64, near zero): each
+	// content-related message is acknowledged under the id it came with
+	g.Emit("c10.run o,o I9223372036854775801;g0;w1;u;a0;c(u,x);j;g1;w2;n5;a1", "server-msgid-range")
+	g.Emit("c10.run o,o I18446744073709547619;g0;w1;u;c(x,a0);j;I7;g1;w2;u;a1", "server-msgid-range")
 	n := g.N(60, 1500)
 	for i := 0; i < n; i++ {
 		if r.Intn(3) == 0 {
@@ -43,6 +68,11 @@ func c10Gen(g *G) {
 			// server messages carry msg_ids taken before messages that were delivered first
 			k1, k2 := 1+r.Intn(4), 1+r.Intn(4)
 			kinds := rsKinds(r, k1+k2, pool)
+			if r.Intn(3) == 0 {
+				for j := range kinds {
+					kinds[j] += "@" + reqTypes[r.Intn(len(reqTypes))]
+				}
+			}
 			w1 := make([]int, k1)
 			for j := range w1 {
 				w1[j] = j
@@ -102,7 +132,18 @@ func c10Gen(g *G) {
 		for j := range all {
 			all[j] = j
 		}
+		if r.Intn(2) == 0 {
+			// some callers send another request than ping
+			for j := range kinds {
+				if r.Intn(2) == 0 {
+					kinds[j] += "@" + reqTypes[r.Intn(len(reqTypes))]
+				}
+			}
+		}
 		plan := []string{"g" + rsJoinInts("", all, "+"), fmt.Sprintf("w%d", k)}
+		if r.Intn(6) == 0 {
+			plan = append([]string{fmt.Sprintf("I%d", (r.U64()|1)%(1<<64-4096))}, plan...)
+		}
 		noise := []string{"u", "x", "p", "k", fmt.Sprintf("n%d", 100+r.Intn(900)), "e", "t"}
 		for j := 0; j < r.Intn(4); j++ {
 			plan = append(plan, noise[r.Intn(len(noise))])
